@@ -1083,9 +1083,19 @@ package tchannel
 //@   modifies allbut errAttempts
 //@   property C07
 
+// The connection's event callbacks (installed by the channel: connection
+// tracking, peer bookkeeping, close notification) send no error frames and do
+// not touch the relay's lookup/admission ghosts (assumed, T4).
+//@ funcfield connectionEvents.OnCloseStateChange(c *Connection)
+//@   modifies allbut errAttempts, closeReq, connErrs, connErrCode, sysErrID, sysErrCode, sysErrMsg, lookupHit, nadmit, admitted, nends, ndec, own, Frame
+//@ funcfield connectionEvents.OnActive(c *Connection)
+//@   modifies allbut errAttempts, closeReq, connErrs, connErrCode, sysErrID, sysErrCode, sysErrMsg, lookupHit, nadmit, admitted, nends, ndec, own, Frame
+//@ funcfield connectionEvents.OnExchangeUpdated(c *Connection)
+//@   modifies allbut errAttempts, closeReq, connErrs, connErrCode, sysErrID, sysErrCode, sysErrMsg, lookupHit, nadmit, admitted, nends, ndec, own, Frame
+
 //@ func (c *Connection) checkExchanges()
 //@   nosafety
-//@   modifies allbut errAttempts, closeReq, connErrs, connErrCode, sysErrID, sysErrCode, sysErrMsg
+//@   modifies allbut errAttempts, closeReq, connErrs, connErrCode, sysErrID, sysErrCode, sysErrMsg, lookupHit, nadmit, admitted, nends, ndec, own, Frame
 //@   property C07
 
 //@ func (ch *Channel) Close()
